@@ -225,7 +225,11 @@ def damage_doc(case):
     objs[2] = W.D(Type=W.N("Pages"), Kids=[W.R(3)], Count=1)
     objs[3] = W.D(Type=W.N("Page"), Parent=W.R(2), MediaBox=[0, 0, 612, 792], Contents=W.R(4),
                   Resources={b"Font": {b"F1": W.R(5)}})
-    objs[4] = W.Stream({b"Length": len(content)}, content)
+    if case.get("len_indirect"):
+        objs[4] = W.Stream({b"Length": W.R(40)}, content)
+        objs[40] = len(content)
+    else:
+        objs[4] = W.Stream({b"Length": len(content)}, content)
     objs[5] = W.simple_font()
     revs = [{"defs": objs, "root": 1, "info": None, "form": "table", "eol": case.get("eol", b"\n"),
              "entry_eol": case.get("entry_eol", b" \n"), "split": case.get("split", False),
@@ -238,6 +242,11 @@ def apply_damage(data, meta, dmg):
     k = dmg["kind"]
     sx = data.rindex(b"startxref")
     if k == "startxref":
+        if dmg["value"].startswith(b"@"):
+            # the offset of an object instead of that of the table
+            import re as _re
+            m = _re.search(rb"(?m)^%d 0 obj" % int(dmg["value"][1:]), data)
+            dmg = dict(dmg, value=b"%d" % (m.start() if m else 0))
         eol = data[sx + 9:sx + 11]
         eol = eol if eol == b"\r\n" else eol[:1]
         end = data.index(b"%%EOF", sx)
@@ -318,7 +327,7 @@ def damage_cases(draw):
     dmg = {"kind": kind, "index": draw(st.integers(0, 50)), "seed": draw(st.integers(0, 2 ** 16))}
     if kind == "startxref":
         dmg["value"] = draw(st.one_of(st.integers(0, 6000).map(lambda v: b"%d" % v), st.sampled_from(
-            [b"", b"abc", b"-5", b"12x", b"1.5", b"99999999999", b"0"])))
+            [b"", b"abc", b"-5", b"12x", b"1.5", b"99999999999", b"0", b"@1", b"@4", b"@4", b"@5"])))
     elif kind == "xref-keyword":
         dmg["value"] = draw(st.sampled_from([b"xerf", b"XREF", b"", b"x", b"1234"]))
     elif kind == "subsection-header":
@@ -326,7 +335,7 @@ def damage_cases(draw):
     elif kind == "entry":
         dmg["value"] = draw(st.sampled_from([b"0000000000 00000", b"000000000a 00000 n", b"0000000010 0000x n", b"garbage",
                                              b"0000000000 00000 n extra", b""]))
-    return {"kind": "damage", "objs": objs, "text": text, "damage": dmg,
+    return {"kind": "damage", "objs": objs, "text": text, "damage": dmg, "len_indirect": draw(st.booleans()),
             "eol": draw(st.sampled_from([b"\n", b"\r\n"])), "bufsiz": draw(st.sampled_from(BUFS)),
             # /Length delimits the data: an EOL before `endstream` is optional
             "stream_eol": draw(st.sampled_from([b"\n", b"\r\n"])),
